@@ -14,6 +14,7 @@ def run(ck):
     factors.r4_c_combiners(ck, P)
     factors.r9_simd_combiners(ck, P)
     factors.r10_composite_bodies(ck, P)
+    factors.r10s_scaled_scanlines(ck, P)
     status.r_fill_word(ck, P, 'C02-R11')
     filt.r7_signed_totals(ck, P, 'C02-R12')
     filt.r_axis_consistency(ck, P, 'C02-R13')
